@@ -29,13 +29,13 @@ type rsaPriv interface {
 
 type rsaFamily struct {
 	pkg, variant, kind, pubKind string
-	valuesType              string // name of the options struct of NewPrivateKey
-	pubOptsField            string // set when the public constructor takes an options struct
-	priv0                   rsaPriv
-	modulus                 func(k key.Key) []byte
-	mkPub                   func(n []byte) (key.Key, error)
-	mkPriv                  func(pub key.Key, p, q, d secretdata.Bytes) (key.Key, error)
-	withPrefix              bool
+	valuesType                  string // name of the options struct of NewPrivateKey
+	pubOptsField                string // set when the public constructor takes an options struct
+	priv0                       rsaPriv
+	modulus                     func(k key.Key) []byte
+	mkPub                       func(n []byte) (key.Key, error)
+	mkPriv                      func(pub key.Key, p, q, d secretdata.Bytes) (key.Key, error)
+	withPrefix                  bool
 }
 
 func rsaTargets(f rsaFamily) {
@@ -204,7 +204,9 @@ func init() {
 				return jwtecdsa.NewPublicKey(jwtecdsa.PublicKeyOpts{PublicPoint: b, IDRequirement: idOf(p0), Parameters: params})
 			},
 			func(k key.Key) secretdata.Bytes { return k.(*jwtecdsa.PrivateKey).PrivateKeyValue() },
-			func(sd secretdata.Bytes, pub key.Key) (key.Key, error) { return jwtecdsa.NewPrivateKeyFromPublicKey(sd, pub.(*jwtecdsa.PublicKey)) })
+			func(sd secretdata.Bytes, pub key.Key) (key.Key, error) {
+				return jwtecdsa.NewPrivateKeyFromPublicKey(sd, pub.(*jwtecdsa.PublicKey))
+			})
 	}
 	{
 		params := must(jwtmldsa.NewParameters(jwtmldsa.Base64EncodedKeyIDAsKID, jwtmldsa.MLDSA44))
@@ -215,7 +217,9 @@ func init() {
 				return jwtmldsa.NewPublicKey(jwtmldsa.PublicKeyOpts{KeyBytes: b, IDRequirement: idOf(p0), Parameters: params})
 			},
 			func(k key.Key) secretdata.Bytes { return k.(*jwtmldsa.PrivateKey).PrivateKeyValue() },
-			func(sd secretdata.Bytes, pub key.Key) (key.Key, error) { return jwtmldsa.NewPrivateKeyFromPublicKey(sd, pub.(*jwtmldsa.PublicKey)) })
+			func(sd secretdata.Bytes, pub key.Key) (key.Key, error) {
+				return jwtmldsa.NewPrivateKeyFromPublicKey(sd, pub.(*jwtmldsa.PublicKey))
+			})
 	}
 	{ // JWT HMAC
 		k0 := primaryKey(newHandle(jwt.HS256Template())).(*jwthmac.Key)
